@@ -145,11 +145,59 @@ func (c13) Generate(seed uint64, tier string, index int) any {
 	sc.Sources = []SrcArg{{Path: "", Slash: true}}
 	sc.Dst = fstree.Tree{}
 	out := &C13Scenario{}
+	// a third of the runs transfer the contents of a sub-directory: rule names
+	// are relative to the transfer root, not to the module or source root
+	prefix := ""
+	if g.R.Intn(3) == 0 {
+		for _, e := range sc.Src.Entries {
+			if e.Type == "d" && !strings.Contains(string(e.Path), "/") {
+				prefix = string(e.Path) + "/"
+				sc.Sources = []SrcArg{{Path: e.Path, Slash: true}}
+				break
+			}
+		}
+	}
 	// rules naming entries in every position, plus some names that match nothing
 	var names []string
+	isDirOnly := map[string]bool{}
 	for _, e := range sc.Src.Entries {
-		names = append(names, path.Base(string(e.Path)))
+		b := path.Base(string(e.Path))
+		names = append(names, b)
+		if _, seen := isDirOnly[b]; !seen {
+			isDirOnly[b] = true
+		}
+		if e.Type != "d" {
+			isDirOnly[b] = false
+		}
 	}
+	// rules with a slash name one path below the transfer root; only paths that
+	// no other entry has as a tail are used, where rsync's tail matching and
+	// an exact comparison agree
+	for _, e := range sc.Src.Entries {
+		p := string(e.Path)
+		if !strings.HasPrefix(p, prefix) {
+			continue
+		}
+		rel := strings.TrimPrefix(p, prefix)
+		if !strings.Contains(rel, "/") {
+			continue
+		}
+		unique := true
+		for _, o := range sc.Src.Entries {
+			if q := strings.TrimPrefix(string(o.Path), prefix); q != rel && strings.HasSuffix(q, "/"+rel) {
+				unique = false
+			}
+		}
+		if unique {
+			names = append(names, rel, rel)
+		}
+	}
+	for b, d := range isDirOnly {
+		if d && g.R.Intn(2) == 0 {
+			names = append(names, b+"/") // directory-only rule for a name only directories bear
+		}
+	}
+	sort.Strings(names)
 	names = append(names, "nomatch")
 	nrules := g.R.Intn(5)
 	for i := 0; i < nrules; i++ {
